@@ -59,7 +59,7 @@ Lemma step_cont st buf p st' b' p' : lex_step src st buf p = Cont st' b' p' -> (
 Proof.
   unfold lex_step. intros H.
   destruct (rd src p) as [ch p1] eqn:Er.
-  destruct ((ch =? 0) && lstate_eqb st SSTART)%bool eqn:E1; [discriminate|].
+  destruct (lstate_eqb st SSTART && (ch =? 0))%bool eqn:E1; [discriminate|].
   destruct (ch =? 0) eqn:E0; [discriminate|].
   destruct (rd_nonzero _ _ _ Er E0) as [A B]. subst p1.
   repeat match type of H with
@@ -97,7 +97,7 @@ Proof.
   unfold lex_step. intros H Hp.
   destruct (rd src p) as [ch p1] eqn:Er.
   pose proof (rd_le _ _ _ Er Hp) as Hb.
-  destruct ((ch =? 0) && lstate_eqb st SSTART)%bool eqn:E1; [inversion H; subst; split; [lia|right; right; reflexivity]|].
+  destruct (lstate_eqb st SSTART && (ch =? 0))%bool eqn:E1; [inversion H; subst; split; [lia|right; right; reflexivity]|].
   destruct (ch =? 0) eqn:E0; [inversion H; subst; split; [lia|left; auto]|].
   destruct (rd_nonzero _ _ _ Er E0) as [A B]. subst p1.
   repeat match type of H with
